@@ -7,7 +7,7 @@ fresh REAL objects) of
                 iteration_allocator<2>, mixed) built over ONE first-fit upstream that hands out adjacent blocks, with
                 try_deallocate_node/array(A, p, shape) for every allocator A and every live pointer p of every sibling;
  part 2 "comp": ALL sequences up to depth 5 (quick) / 7 (thorough; 6 in rel) of {allocate node, allocate array x1/x2/x3, release
-                any live allocation} on 25 compositions (fallback, nested fallbacks, aligned/tracked/reference/
+                any live allocation} on 28 compositions (fallback, nested fallbacks, aligned/tracked/reference/
                 type-erased reference/thread_safe layers, binary_segregator) x 8 leaf configurations (instrumented
                 leaves with a call log and real pools/stacks/collections behind them) x {normal, composable} interface.
 """
@@ -49,7 +49,9 @@ def check(prop, tier, only):
             "the leaf that served it, with the call shape (node/array, count, size, alignment) that leaf saw at allocation; a leaf "
             "never gets a mandatory deallocate for memory it did not serve; a real pool/stack/collection behind a leaf answers "
             "try_deallocate true for its own and false for foreign memory; when everything is released every leaf is back at full "
-            "capacity; the composable interface of a composition returns true for its own and false for an outsider pointer. "
+            "capacity; the composable interface of a composition returns true for its own and false for an outsider pointer; every "
+            "tracked_allocator layer has an instrumented Tracker: exactly one on_*_allocation per allocation served below it, exactly one "
+            "on_*_deallocation per release accepted below it, none for a refused try_deallocate, balanced when everything is released. "
             "abort/crash/hang inside a contract-respecting sequence is a violation. Every violation is re-run once before it is reported.")
     assumptions = [
         "x86-64, max_align 16: upstream blocks are multiples of 16 bytes so that consecutive blocks are exactly adjacent",
